@@ -92,19 +92,23 @@ func loadExecShape(c *Ctx, rule string) *execShape {
 	return s
 }
 
-func runC09(c *Ctx) {
+func runC09(c *Ctx) { execRules(c, true) }
+
+// execRules: path rules on Executor.Execute; full adds the C09-only rules.
+func execRules(c *Ctx, full bool) {
 	c.Rule("R09a", "Execute: every path from entry to the first ExecContext passes a (non-deferred) writeRevision: the file is marked as started before any statement runs", 1)
 	c.Rule("R09b1", "Execute: an Applied store is reachable from ExecContext only through the success edge of its error check, and every path from entry to an Applied store passes ExecContext", 2)
 	c.Rule("R09b2", "Execute: from the success edge of ExecContext every path to writeRevision / next ExecContext / return passes the PartialHashes append and the Applied increment (in that order, the append indexing the sums by Applied)", 3)
 	c.Rule("R09b3", "Execute: from the Applied increment every path to the next ExecContext passes writeRevision, and the error branch of every writeRevision / ExecContext leaves the loop (no further ExecContext)", 3)
-	c.Rule("R09c", "Revision.Applied and Revision.PartialHashes are stored (assignment / inc-dec / address taken) only inside Executor.Execute, in both modules", 3)
-	c.Rule("R09d", "Execute: the statement loop ranges over stmts[r.Applied:] of the scanned statements (low bound is the loaded Applied field, no arithmetic; no high bound) and executes the loop variable's Text", 1)
 	c.Rule("R09e", "Execute: a deferred closure writes the revision unless the error is a WriteRevisionError, and it is deferred on every path before the first ExecContext", 2)
-	c.Rule("R09f", "Executor.exec: ranges over its files parameter as given, calls Execute on the loop variable, and the error branch of Execute returns (fail-stop)", 3)
 	c.Rule("R09g", "writeRevision reaches RevisionReadWriter.WriteRevision on every path and wraps its error in WriteRevisionError", 2)
-
-	c.Rule("R09h", "Executor.Pending decides whether the last revision is complete from Applied and Total alone: its conditions read no other Revision field than Applied, Total and Version, and Applied is only ever compared with Total of the same revision", 4)
-	checkPendingReads(c, "R09h")
+	if full {
+		c.Rule("R09c", "Revision.Applied and Revision.PartialHashes are stored (assignment / inc-dec / address taken) only inside Executor.Execute, in both modules", 3)
+		c.Rule("R09d", "Execute: the statement loop ranges over stmts[r.Applied:] of the scanned statements (low bound is the loaded Applied field, no arithmetic; no high bound) and executes the loop variable's Text", 1)
+		c.Rule("R09f", "Executor.exec: ranges over its files parameter as given, calls Execute on the loop variable, and the error branch of Execute returns (fail-stop)", 3)
+		c.Rule("R09h", "Executor.Pending decides whether the last revision is complete from Applied and Total alone: its conditions read no other Revision field than Applied, Total and Version, and Applied is only ever compared with Total of the same revision", 4)
+		checkPendingReads(c, "R09h")
+	}
 
 	s := loadExecShape(c, "R09a")
 	if s == nil {
@@ -185,17 +189,16 @@ func runC09(c *Ctx) {
 		c.Check("R09b3", "Execute|writeRevision|fail-stop", nodePos(n, wp.b.Nodes[wp.i].Pos()), !found, "an ExecContext is reachable from the error branch of writeRevision")
 	}
 
-	// R09c ownership
-	checkFieldOwners(c, "R09c", pMigrate, "Revision", []string{"Applied", "PartialHashes"}, map[string]bool{"migrate.(Executor).Execute": true})
-
-	// R09d resume index
-	checkResumeLoop(c, s)
-
+	if full {
+		// R09c ownership
+		checkFieldOwners(c, "R09c", pMigrate, "Revision", []string{"Applied", "PartialHashes"}, map[string]bool{"migrate.(Executor).Execute": true})
+		// R09d resume index
+		checkResumeLoop(c, s)
+		// R09f exec loop
+		checkExecLoop(c)
+	}
 	// R09e deferred final write
 	checkDeferredWrite(c, s)
-
-	// R09f exec loop
-	checkExecLoop(c)
 
 	// R09g writeRevision
 	if wf := c.Func("R09g", pMigrate, "Executor", "writeRevision"); wf != nil {
